@@ -9312,6 +9312,82 @@ let holds_C07 pre f post =
   | Some t' -> visible_eqb t' post.vterm
   | None -> true
 
+(** val sgr_op_eqb : sgr_op -> sgr_op -> bool **)
+
+let sgr_op_eqb a b =
+  match a with
+  | Reset -> (match b with
+              | Reset -> true
+              | _ -> false)
+  | SetBoldIntensity -> (match b with
+                         | SetBoldIntensity -> true
+                         | _ -> false)
+  | SetFaintIntensity -> (match b with
+                          | SetFaintIntensity -> true
+                          | _ -> false)
+  | SetItalic -> (match b with
+                  | SetItalic -> true
+                  | _ -> false)
+  | SetUnderline -> (match b with
+                     | SetUnderline -> true
+                     | _ -> false)
+  | SetBlink -> (match b with
+                 | SetBlink -> true
+                 | _ -> false)
+  | SetInverse -> (match b with
+                   | SetInverse -> true
+                   | _ -> false)
+  | SetStrikethrough -> (match b with
+                         | SetStrikethrough -> true
+                         | _ -> false)
+  | ResetIntensity -> (match b with
+                       | ResetIntensity -> true
+                       | _ -> false)
+  | ResetItalic -> (match b with
+                    | ResetItalic -> true
+                    | _ -> false)
+  | ResetUnderline -> (match b with
+                       | ResetUnderline -> true
+                       | _ -> false)
+  | ResetBlink -> (match b with
+                   | ResetBlink -> true
+                   | _ -> false)
+  | ResetInverse -> (match b with
+                     | ResetInverse -> true
+                     | _ -> false)
+  | ResetStrikethrough ->
+    (match b with
+     | ResetStrikethrough -> true
+     | _ -> false)
+  | SetForegroundColor c ->
+    (match b with
+     | SetForegroundColor d -> color_eqb c d
+     | _ -> false)
+  | ResetForegroundColor ->
+    (match b with
+     | ResetForegroundColor -> true
+     | _ -> false)
+  | SetBackgroundColor c ->
+    (match b with
+     | SetBackgroundColor d -> color_eqb c d
+     | _ -> false)
+  | ResetBackgroundColor ->
+    (match b with
+     | ResetBackgroundColor -> true
+     | _ -> false)
+
+(** val sgr_decode_ok : sgr_op list -> parser0 -> bool **)
+
+let sgr_decode_ok ops p =
+  list_eqb sgr_op_eqb ops (spec_sgr_params (firstn (S p.cur_param) p.params))
+
+(** val holds_C03_sgr : func -> vt -> bool **)
+
+let holds_C03_sgr f post =
+  match f with
+  | Sgr ops -> sgr_decode_ok ops post.vparser
+  | _ -> true
+
 (** val holds_C08 : vt -> func -> vt -> bool **)
 
 let holds_C08 pre f post =
@@ -9332,75 +9408,7 @@ let holds_C08 pre f post =
              ins = x.ins; org = x.org; awm = x.awm; nlm = x.nlm; ckm = x.ckm;
              pend = x.pend; top = x.top; bot = x.bot; sctx = x.sctx; asctx =
              x.asctx; dirty = x.dirty; xtw = x.xtw })) (fun _ ->
-             post.vterm.tpen) t) post.vterm))
-       (let p = post.vparser in
-        list_eqb (fun a b ->
-          match a with
-          | Reset -> (match b with
-                      | Reset -> true
-                      | _ -> false)
-          | SetBoldIntensity ->
-            (match b with
-             | SetBoldIntensity -> true
-             | _ -> false)
-          | SetFaintIntensity ->
-            (match b with
-             | SetFaintIntensity -> true
-             | _ -> false)
-          | SetItalic -> (match b with
-                          | SetItalic -> true
-                          | _ -> false)
-          | SetUnderline -> (match b with
-                             | SetUnderline -> true
-                             | _ -> false)
-          | SetBlink -> (match b with
-                         | SetBlink -> true
-                         | _ -> false)
-          | SetInverse -> (match b with
-                           | SetInverse -> true
-                           | _ -> false)
-          | SetStrikethrough ->
-            (match b with
-             | SetStrikethrough -> true
-             | _ -> false)
-          | ResetIntensity ->
-            (match b with
-             | ResetIntensity -> true
-             | _ -> false)
-          | ResetItalic -> (match b with
-                            | ResetItalic -> true
-                            | _ -> false)
-          | ResetUnderline ->
-            (match b with
-             | ResetUnderline -> true
-             | _ -> false)
-          | ResetBlink -> (match b with
-                           | ResetBlink -> true
-                           | _ -> false)
-          | ResetInverse -> (match b with
-                             | ResetInverse -> true
-                             | _ -> false)
-          | ResetStrikethrough ->
-            (match b with
-             | ResetStrikethrough -> true
-             | _ -> false)
-          | SetForegroundColor c ->
-            (match b with
-             | SetForegroundColor d -> color_eqb c d
-             | _ -> false)
-          | ResetForegroundColor ->
-            (match b with
-             | ResetForegroundColor -> true
-             | _ -> false)
-          | SetBackgroundColor c ->
-            (match b with
-             | SetBackgroundColor d -> color_eqb c d
-             | _ -> false)
-          | ResetBackgroundColor ->
-            (match b with
-             | ResetBackgroundColor -> true
-             | _ -> false)) ops
-          (spec_sgr_params (firstn (S p.cur_param) p.params)))
+             post.vterm.tpen) t) post.vterm)) (sgr_decode_ok ops post.vparser)
    | _ ->
      (||) (pen_eqb t.tpen post.vterm.tpen)
        (match f with
